@@ -177,6 +177,38 @@ pub fn run(ctx: &Ctx) -> i32 {
         spaces.push(Space { name: "T4/size-extremes", len: big.len(), make: Box::new(move |i| b[i].clone()) });
     }
 
+    // T6: character sweep - every character of the Basic Multilingual Plane (thorough: every
+    // Unicode scalar value), control characters included, in each of 14 places of a source text
+    {
+        const PLACES: [&str; 14] = [
+            "{}",
+            "lab{}el add r0, r0, #1\nbr lab{}el\n",
+            "add{} r0, r0, #1\n",
+            "add r0, r{}0, #1\n",
+            "add r0, r0, #1{}\n",
+            ".fill x{}41\n",
+            ".fill #{}\n",
+            ".stringz \"a{}b\"\nhalt\n",
+            ".stringz \"\\{}\"\n",
+            "halt ; comment {}\nhalt\n",
+            ".{}orig x3000\nhalt\n",
+            "halt {} halt\n",
+            "ld r0, {}\n{} .fill x1\n",
+            "{}{}{}",
+        ];
+        let top: usize = ctx.tier.pick(0x1_0000, 0x11_0000);
+        spaces.push(Space {
+            name: "T6/character-sweep",
+            len: top * PLACES.len(),
+            make: Box::new(move |i| {
+                let (cp, pl) = (i / PLACES.len(), i % PLACES.len());
+                // surrogates are not characters: their slots repeat U+FFFD
+                let c = char::from_u32(cp as u32).unwrap_or('\u{FFFD}');
+                (PLACES[pl].replace("{}", &c.to_string()), false)
+            }),
+        });
+    }
+
     // Flatten: (space index, offset)
     let mut offsets = Vec::new();
     let mut total = 0usize;
@@ -262,7 +294,7 @@ pub fn run(ctx: &Ctx) -> i32 {
         ctx,
         all,
         Level { category: "model_checking", bfs: None },
-        "bounded-exhaustive enumeration of texts: T1 every token sequence up to the tier's length over a 32-token alphabet (one token of every lexical kind incl. each directive, malformed literals, multi-byte characters) joined by space and by newline, under both feature flags; T2 every string up to the tier's length over 36 characters the lexer distinguishes; T3 every single-token deletion/duplication/swap/replacement (by each alphabet token) of 10 seed programs and a 2-, 3- and 4-byte character and two characters whose lower-case form changes byte length (U+212A, U+0130) inserted at every character boundary; T4 size extremes; T5 `.blkw xFFFF` / `.blkw #-1` / `.stringz` lines repeated up to 3000 / 20000 times through `lace check` under a 2 GiB address-space limit (no allocation abort). Oracle: assembling returns (60 s watchdog) without panic, and a diagnostic renders and every labelled span lies inside the source (offset+len <= length). distinct_nontrivial = distinct texts that ended in a diagnostic",
+        "bounded-exhaustive enumeration of texts: T1 every token sequence up to the tier's length over a 32-token alphabet (one token of every lexical kind incl. each directive, malformed literals, multi-byte characters) joined by space and by newline, under both feature flags; T2 every string up to the tier's length over 36 characters the lexer distinguishes; T3 every single-token deletion/duplication/swap/replacement (by each alphabet token) of 10 seed programs and a 2-, 3- and 4-byte character and two characters whose lower-case form changes byte length (U+212A, U+0130) inserted at every character boundary; T4 size extremes; T6 every character of the Basic Multilingual Plane (thorough: every Unicode scalar value), control characters included, in each of 14 places of a source (alone, inside a label and its reference, glued to a mnemonic, inside a register, behind a literal, inside hex and decimal literals, inside a string, as an escape, in a comment, inside a directive name, between statements, as a whole label, three in a row); T5 `.blkw xFFFF` / `.blkw #-1` / `.stringz` lines repeated up to 3000 / 20000 times through `lace check` under a 2 GiB address-space limit (no allocation abort). Oracle: assembling returns (60 s watchdog) without panic, and a diagnostic renders and every labelled span lies inside the source (offset+len <= length). distinct_nontrivial = distinct texts that ended in a diagnostic",
         true,
         &["some-image", "some-diagnostic"],
         &["profile: optimised with debug assertions and overflow checks, so arithmetic overflow panics as in `cargo test`"],
